@@ -95,6 +95,8 @@ var defaultRedirect = map[string]string{
 	"strings.Index":                     "IndexString",
 	"bytes.Index":                       "Index",
 	"internal/bytealg.Equal":            "EqualBytes",
+	"sort.Slice":                        "SortSlice",
+	"sort.SliceStable":                  "SortSlice",
 	"unicode/utf8.DecodeRuneInString":   "DecodeRuneInString",
 	"unicode/utf8.DecodeRune":           "DecodeRune",
 	"internal/runtime/atomic.placeholder": "",
